@@ -179,6 +179,9 @@ struct Model {
     rival_pending: Option<(String, Vec<u8>)>,
     /// rel paths that were seen holding a permitted entry at some check point
     established: BTreeSet<String>,
+    /// Second phase of a run: the servers still answer the code-file / code-id lookup but fail
+    /// every object request (a later lookup must then be served from the cache).
+    degraded: bool,
     /// rel paths whose commit failed at the persist step (injected I/O error or a link error):
     /// the entry that the commit had removed to make room may then be gone
     persist_failed: BTreeSet<String>,
@@ -677,10 +680,14 @@ fn install_transport(world: &World, model: &Rc<RefCell<Model>>) {
     let allow_stall = true;
     reqwest::sim::install(move |info: &RequestInfo| {
         let base = url_without_query(&info.url);
-        let (sym_mod, is_file, cab_rel) = {
+        let (sym_mod, is_file, cab_rel, degraded) = {
             let m = model2.borrow();
-            (m.sym_urls.get(&base).copied(), m.file_rels.contains_key(&base), m.cab_rels.get(&base).cloned())
+            (m.sym_urls.get(&base).copied(), m.file_rels.contains_key(&base), m.cab_rels.get(&base).cloned(), m.degraded)
         };
+        if degraded && (sym_mod.is_some() || is_file || cab_rel.is_some()) && info.follows_redirects {
+            probe("e3.degraded_object_request");
+            return Plan::status(500);
+        }
         // a known object asked for directly by a redirect-following client: now and then the
         // server sends the client to the object's /cdn/ twin (signed-URL style)
         if (sym_mod.is_some() || is_file || cab_rel.is_some()) && info.follows_redirects && info.url == info.origin_url && chance("e3.srv.redirect", 1, 8) {
@@ -745,7 +752,7 @@ fn install_transport(world: &World, model: &Rc<RefCell<Model>>) {
                 }
                 if let Some(p) = breakpad_symbols::code_info_breakpad_sym_lookup(&*ms.module) {
                     if info.url.ends_with(&url_path_encode(&p)) || info.url.contains(&p) {
-                        return match ch("e3.srv.codeid", 4) {
+                        return match if degraded { 3 } else { ch("e3.srv.codeid", 4) } {
                             0 => Plan::status(404),
                             1 => Plan::connect_error(),
                             _ => {
@@ -889,6 +896,7 @@ fn run_inner(c12_files: bool) -> Outcome {
         cab_rels: BTreeMap::new(),
         rival_pending: None,
         established: BTreeSet::new(),
+        degraded: false,
         persist_failed: BTreeSet::new(),
     }));
     {
@@ -1187,6 +1195,38 @@ fn run_inner(c12_files: bool) -> Outcome {
                 }
                 Some(Err(e)) => return Err(Violation::new("c16.reload_fails", format!("a committed entry cannot be loaded back from the cache ({})", err_name(&e)))),
                 None => return Err(Violation::new("c16.reload_fails", "reload did not complete")),
+            }
+            // 5'. a module that lacks debug info finds its entry again through the servers'
+            // code-file / code-id lookup, also when the servers can serve nothing else any more
+            // (the Location header of the simulated lookup carries the path as it is; a header
+            // value the client can read as text is ASCII, so other names cannot be looked up)
+            if ms.needs_code_lookup && ms.rel.is_ascii() {
+                model.borrow_mut().degraded = true;
+                let before = reqwest::sim::snapshots().len();
+                let fresh = HttpSymbolSupplier::new(world.urls.clone(), world.scratch.root.join("cache"), world.scratch.root.join("tmp"), vec![], Duration::from_secs(10_000_000));
+                let mut ex3 = Exec::new(simkit::ExecConfig::default());
+                let out: Rc<RefCell<Option<Result<SymbolFile, SymbolError>>>> = Rc::new(RefCell::new(None));
+                let out2 = out.clone();
+                let module = ms.module.clone();
+                ex3.spawn("reload-by-code-id", async move {
+                    let r = fresh.locate_symbols(&*module).await.map(|r| r.symbols);
+                    *out2.borrow_mut() = Some(r);
+                });
+                let _ = ex3.run(|_, _| Ok(()))?;
+                model.borrow_mut().degraded = false;
+                let object_requests = reqwest::sim::snapshots()[before..].iter().filter(|s| s.info.follows_redirects).count();
+                let got = out.borrow_mut().take();
+                match got {
+                    Some(Ok(t)) => {
+                        probe("e3.cache_hit_by_code_id");
+                        simkit::ensure!(object_requests == 0, "c16.cached_entry_not_used", "a module without debug info whose entry is in the cache was requested from the servers again");
+                        simkit::ensure!(t == expected, "c16.reload_differs", "a lookup served from the cache yields a different {} than the original download", if t.url != expected.url { "URL" } else { "symbol table" });
+                    }
+                    Some(Err(e)) => {
+                        return Err(Violation::new("c16.cached_entry_not_used", format!("a module without debug info whose entry is in the cache is not served from it once the servers fail ({})", err_name(&e))))
+                    }
+                    None => return Err(Violation::new("c16.reload_fails", "reload by code id did not complete")),
+                }
             }
         }
         // C12 (files scenario): each file URL requested at most once per supplier instance
